@@ -202,6 +202,7 @@ func c16Gen(w *bufio.Writer, seed int64, tier string) {
 		// peers 4..5 downstream candidates (we dialed them: odd ids 1,3,5,…)
 		np := 2 + r.intn(4)
 		connected := map[int]bool{}
+		dialed := map[int]bool{} // we dialed the peer: its own stream ids are even, ours toward it odd
 		for p := 1; p <= np; p++ {
 			mode := "a"
 			if p >= 4 || r.chance(20) {
@@ -209,6 +210,7 @@ func c16Gen(w *bufio.Writer, seed int64, tier string) {
 			}
 			fmt.Fprintf(w, "conn %d %s\n", p, mode)
 			connected[p] = true
+			dialed[p] = mode == "d"
 		}
 		// frames only ever arrive from connected peers
 		from := func(p int) bool { return connected[p] }
@@ -237,14 +239,19 @@ func c16Gen(w *bufio.Writer, seed int64, tier string) {
 				if !from(up) {
 					fmt.Fprintf(w, "conn %d a\n", up)
 					connected[up] = true
+					dialed[up] = false
+					nextUp[up] = 0
 				}
 				var sid uint64
 				if distinctOnly {
 					sid = globalUp
 					globalUp += 2
 				} else {
-					if nextUp[up] == 0 {
+					if nextUp[up] == 0 { // the peer's own allocator: odd if it dialed us, even if we dialed it
 						nextUp[up] = 1
+						if dialed[up] {
+							nextUp[up] = 2
+						}
 					}
 					sid = nextUp[up]
 					nextUp[up] += 2
@@ -290,8 +297,11 @@ func c16Gen(w *bufio.Writer, seed int64, tier string) {
 				connected[p] = false
 			default:
 				p := 1 + r.intn(np)
-				fmt.Fprintf(w, "conn %d %s\n", p, r.pickS("a", "d"))
+				mode := r.pickS("a", "d")
+				fmt.Fprintf(w, "conn %d %s\n", p, mode)
 				connected[p] = true
+				dialed[p] = mode == "d"
+				nextUp[p] = 0
 			}
 		}
 		// orderly teardown: every tunnel is closed from upstream (twice: double close), then every peer leaves
